@@ -3,7 +3,9 @@
 spec/C03/Rot.tla is the R-spec: the documented constructions as symbolic terms (H(alg, Cat(...)), lengths concrete in TLA+),
 the documented layout of certificate block v1 / v2.1, and a state machine of the operations the property talks about.
   GEN+MC (RotGen) : TLC enumerates the case space (key-set shapes x orders x used index x encodings x tool paths), checks the
-                    term lemmas on every case and EMITS every case together with its term; it also enumerates histories of the
+                    term lemmas on every case and EMITS every case together with its term; the DEVICE sweep (every family x every
+                    silicon revision of the device table, "latest" included, x every entry point that takes a revision; the RoT
+                    type of a case is the one the table gives for THAT revision); it also enumerates histories of the
                     certificate blocks (Build / Export / Parse / SetUserData / Export ...) and of key files (Write; Read by
                     path; Rewrite; Read by path again).
   MC (RotMC)      : the state machine with small constants; RotMC_asbuilt.cfg is the I-spec of the cached ISK signature (TLC
@@ -244,6 +246,42 @@ def families():
     return _fam
 
 
+_dev = []
+
+
+def devices():
+    """The device table the spec quantifies over (constant Devices): per family the revisions, the RoT type each revision HAS (frozen
+    table anchors/C03/rot_types_rev.json; revisions / families added later are classified by the database), the revision "latest"
+    stands for (the database's convention) and which device entry points the family has.  Written once per run for TLC."""
+    if _dev:
+        return _dev
+    from spsdk.dat.debug_credential import DebugCredentialCertificate
+    from spsdk.pfr.pfr import CMPA
+    from spsdk.utils.crypto.rot import Rot
+    from spsdk.utils.database import DatabaseManager, get_db
+
+    frozen = json.load(open(os.path.join(ADIR, "rot_types_rev.json")))
+    db = DatabaseManager().db
+    cmpa, dat = set(CMPA.get_supported_families()), set(DebugCredentialCertificate.get_supported_families())
+    for f in sorted(Rot.get_supported_families()):
+        dev = db.devices.get(f)
+        revs = [str(x) for x in dev.revisions.revision_names()]
+        known = frozen.get(f, {}).get("revs", {})
+        rots = [known.get(x) or get_db(f, x).get_str(DatabaseManager.CERT_BLOCK, "rot_type") for x in revs]
+        latest = str(dev.latest_rev)
+        if not revs or latest not in revs:
+            raise Machinery(f"device table: family {f} has revisions {revs} and latest {latest}")
+        _dev.append({"fam": f, "revs": revs, "rots": rots, "latest": latest, "pfr": f in cmpa, "dc": f in dat})
+    path = os.path.join(scratch(), "c03-devices.ndjson")
+    tmp = f"{path}.{os.getpid()}"
+    with open(tmp, "w") as fh:
+        for d in _dev:
+            fh.write(json.dumps(d) + "\n")
+    os.replace(tmp, path)
+    os.environ["C03_DEVICES"] = path  # lib.tlc hands the environment to TLC (IOEnv.C03_DEVICES)
+    return _dev
+
+
 def fam_kind(path):
     return "pfr" if path == "pfr" else "dc" if path in ("dc", "dc_parse") else "rot"
 
@@ -256,8 +294,8 @@ def family_for(rot, path, pick):
     return fams[pick % len(fams)]
 
 
-def compute(c, fam, files=None, workdir=None):
-    """Run ONE tool path of the real code -> (got, fieldLen)."""
+def compute(c, fam, files=None, workdir=None, rev="latest"):
+    """Run ONE tool path of the real code -> (got, fieldLen).  rev: the silicon revision handed to the entry points that take one."""
     rot, path, used = c["rot"], c["path"], c["used"]
     keys, encs = c["keys"], c["encs"]
     pw = PASSWORD if any(e["fmt"] == "priv.enc.pem" for e in encs) else None
@@ -274,7 +312,7 @@ def compute(c, fam, files=None, workdir=None):
         if path in ("rot", "rot_table"):
             from spsdk.utils.crypto.rot import Rot
 
-            r = Rot(fam, "latest", keys_or_certs=ins, password=pw)
+            r = Rot(fam, rev, keys_or_certs=ins, password=pw)
             return val(r.calculate_hash() if path == "rot" else r.export()), 0
         if path == "keyhash":
             from spsdk.pfr.pfr import calc_pub_key_hash
@@ -289,6 +327,8 @@ def compute(c, fam, files=None, workdir=None):
             if os.path.exists(outp):
                 os.remove(outp)
             args = ["rot", "calculate-hash", "-f", fam, "-o", outp]
+            if rev != "latest":  # "latest" is also what the tool takes when no revision is given
+                args += ["-r", rev]
             for p in ins:
                 args += ["-k", p]
             if pw:
@@ -308,7 +348,7 @@ def compute(c, fam, files=None, workdir=None):
                 from spsdk.crypto.utils import extract_public_key
 
                 pubs = [extract_public_key(x, pw) if isinstance(x, str) else x for x in ins]
-            area = CMPA(fam)
+            area = CMPA(fam) if rev == "latest" else CMPA(fam, rev)
             data = area.export(keys=pubs, draw=False)
             reg = area.registers.find_reg("ROTKH")
             return val(data[reg.offset:reg.offset + reg.width // 8]), reg.width // 8
@@ -319,7 +359,7 @@ def compute(c, fam, files=None, workdir=None):
 
             uk = keys[used - 1]
             dck = {"cls": uk["cls"], "id": 7} if uk["cls"] in ("p256", "p384") else {"cls": uk["cls"], "id": 4 if uk["id"] != 4 else 3}
-            cfg = {"family": fam, "revision": "latest", "rot_meta": ins, "rot_id": used - 1, "dck": kfile(kname(dck), "pub.pem"),
+            cfg = {"family": fam, "revision": rev, "rot_meta": ins, "rot_id": used - 1, "dck": kfile(kname(dck), "pub.pem"),
                    "rotk": kfile(kname(uk), "priv.pem"), "uuid": "00" * 16, "cc_socu": "0x3FF", "cc_vu": 0, "cc_beacon": 0}
             dc = DebugCredentialCertificate.create_from_yaml_config(cfg)
             if path == "dc_parse":  # the credential file carries the RoT meta: what a reader of the file computes
@@ -402,6 +442,15 @@ def run_case(job):
     want = ev(term, Env())
     got, flen = compute(c, fam, workdir=os.path.join(scratch(), "c03-work"))
     return {"id": tid, "fam": fam, "ev": [{"a": "Compute", "c": c, "term": term, "want": list(want), "got": got, "fieldLen": flen}]}
+
+
+def run_dev(job):
+    """One ComputeFor case (an entry point that is given family AND revision) -> trace with one event."""
+    tid, e = job
+    c, term = e["c"], e["term"]
+    want = ev(term, Env())
+    got, flen = compute(c, e["fam"], workdir=os.path.join(scratch(), "c03-work"), rev=e["rev"])
+    return {"id": tid, "fam": e["fam"], "ev": [{"a": "ComputeFor", "fam": e["fam"], "rev": e["rev"], "c": c, "term": term, "want": list(want), "got": got, "fieldLen": flen}]}
 
 
 # ------------------------------------------------------------------ certificate block v2.1 histories
@@ -784,6 +833,9 @@ def finding_key(t, matched, evname, why):
     if evname == "Compute":
         c = e["c"]
         return f"C03/{c['rot']}/{c['path']}/{key_class(c['keys'])}/{why}"
+    if evname == "ComputeFor":
+        c = e["c"]
+        return f"C03/{c['rot']}/{c['path']}/{e['fam']}@{e['rev']}/{key_class(c['keys'])}/{why}"
     if evname == "ReadByPath":
         rewritten = sum(1 for x in evs[:matched] if x["a"] == "ReadByPath") > 0
         n = len(e["files"])
@@ -842,6 +894,34 @@ def canary_traces(c, term):
             {"id": "canary-refused", "ev": [bad3]}]
 
 
+def canary_dev(devcases):
+    """Device canaries: a good observation of an entry point that was given (family, revision) is accepted; the same observation
+    carrying the value of ANOTHER revision's RoT type is rejected ("value"); a case whose RoT type is not the table's is refused
+    ("device").  Taken from a family whose revisions have different types when the table has one, else a flipped bit."""
+    by = {}
+    for e in devcases:
+        if e["c"]["path"] == "rot":
+            by.setdefault(e["fam"], []).append(e)
+    pair = next(((a, b) for es in by.values() for a in es for b in es if a["c"]["rot"] != b["c"]["rot"] and a["rev"] != "latest"), None)
+    a = pair[0] if pair else next(e for e in devcases if e["c"]["path"] == "rot")
+    want = list(ev(a["term"], Env()))
+    good = {"a": "ComputeFor", "fam": a["fam"], "rev": a["rev"], "c": a["c"], "term": a["term"], "want": want, "got": {"k": "val", "v": want, "msg": ""}, "fieldLen": 0}
+    bad = json.loads(json.dumps(good))
+    if pair:
+        bad["got"]["v"] = list(ev(pair[1]["term"], Env()))             # what the entry point returns when it looks at the other revision
+    else:
+        bad["got"]["v"][7] ^= 0x10
+    out = [{"id": "canary-dev-good", "ev": [good]}, {"id": "canary-dev-otherrev", "ev": [bad]}]
+    expect = {"canary-dev-otherrev": "value"}
+    if pair:
+        bad2 = json.loads(json.dumps(good))
+        bad2["c"], bad2["term"] = pair[1]["c"], pair[1]["term"]         # the case of the other revision's type under this revision's name
+        bad2["want"] = bad2["got"]["v"] = list(ev(pair[1]["term"], Env()))
+        out.append({"id": "canary-dev-wrongtype", "ev": [bad2]})
+        expect["canary-dev-wrongtype"] = "device"
+    return out, expect, bool(pair)
+
+
 def run(tier):
     import_spsdk()
     v = Verdict(PROP, tier)
@@ -851,6 +931,7 @@ def run(tier):
     os.makedirs(os.path.join(sc, "c03-work"), exist_ok=True)
     nkeys = check_pool()
     families()
+    devs = devices()
 
     # ---- sampled cases go through the generator too: TLC checks that they are in the asserted domain and emits their terms
     extra_file = os.path.join(sc, "c03-extra.ndjson")
@@ -892,8 +973,9 @@ def run(tier):
            bg("cb21", lambda: gen("cb21", menu, 3, workers=2 if quick else 4, timeout=1500)),
            bg("cb1", lambda: gen("cb1", menu, 3 if quick else 4, workers=1 if quick else 2, timeout=1500)),
            bg("files", lambda: gen("files", menu, 3 if quick else 5, workers=1 if quick else 2, timeout=1500)),
+           bg("dev", lambda: gen("dev", menu, 1, workers=1, timeout=1500)),
            bg("mc", lambda: tlc.mc("C03", "RotMC", "RotMC.cfg", workers=2 if quick else 4, heap="6g", timeout=900,
-                                   require_actions=("LCompute", "LWriteFile", "LReadByPath", "LBuild21", "LExport21", "LParse21", "LSetUserData",
+                                   require_actions=("LCompute", "LComputeFor", "LWriteFile", "LReadByPath", "LBuild21", "LExport21", "LParse21", "LSetUserData",
                                                     "LSetConstraints", "LBuild1", "LExport1", "LParse1", "LSetImageLength"))),
            bg("asbuilt", lambda: tlc.run("C03", "RotMC", "RotMC_asbuilt.cfg", workers=1, heap="4g", timeout=900))]
     if not quick:  # longer histories over the small menus (the full menus are exhausted to depth 3)
@@ -902,19 +984,27 @@ def run(tier):
         th.join()
     if errs:
         raise errs[0]
-    for name in ("case", "cb21", "cb1", "files", "mc") + (() if quick else ("cb21-deep",)):
+    for name in ("case", "cb21", "cb1", "files", "dev", "mc") + (() if quick else ("cb21-deep",)):
         v.add_mc(res[name])
     ab = res["asbuilt"]
     v.extra["ispec_prediction"] = ("RotMC_asbuilt (SigCache = TRUE, the signature is only made when there is none): TLC " +
                                    (f"violates {ab.violated} - the stale ISK signature after a field change is predicted" if ab.violated == "FreshSignature"
                                     else f"reports {ab.violated or 'no violation'} (drift: the as-built model no longer shows the defect)"))
-    say(f"[C03] GEN/MC done {v.timer.s()}s: " + ", ".join(f"{k}={res[k].distinct}" for k in ("case", "cb21", "cb1", "files", "mc")))
+    say(f"[C03] GEN/MC done {v.timer.s()}s: " + ", ".join(f"{k}={res[k].distinct}" for k in ("case", "cb21", "cb1", "files", "dev", "mc")))
 
     cases = [(j["hist"][0]["c"], j["hist"][0]["term"]) for j in res["case"].json_prints() if j["mode"] == "case"]
     depths = {"cb21": 3, "cb1": 3 if quick else 4, "files": 3 if quick else 5}
     behs = {m: [dict(j, gen=[menu, depths[m]]) for j in res[m].json_prints() if j["mode"] == m] for m in ("cb21", "cb1", "files")}
     if not quick:
         behs["cb21"] += [dict(j, gen=["small", 5]) for j in res["cb21-deep"].json_prints() if j["mode"] == "cb21"]
+    devcases = [j["hist"][0] for j in res["dev"].json_prints() if j["mode"] == "dev"]
+    # the device sweep must be complete: every (family, revision name) of the table whose RoT type the property names, through Rot (value
+    # and table) and through the command line
+    need = {(d["fam"], x, p) for d in devs for x in d["revs"] + ["latest"] for p in ("rot", "rot_table", "cli")
+            if d["rots"][d["revs"].index(d["latest"] if x == "latest" else x)] in PATHS}
+    have = {(e["fam"], e["rev"], e["c"]["path"]) for e in devcases}
+    if not need or need - have:
+        raise Machinery(f"device sweep incomplete: {len(need - have)} of {len(need)} (family, revision, entry point) missing, e.g. {sorted(need - have)[:3]}")
     if len(cases) < 2000 or min(len(b) for b in behs.values()) < 50:
         raise Machinery(f"generator emitted too little: {len(cases)} cases, " + str({m: len(b) for m, b in behs.items()}))
     n_anchor = anchor_check(cases)
@@ -929,6 +1019,10 @@ def run(tier):
     r.shuffle(order)  # spread the expensive (RSA private key) cases over the workers
     traces = pmap(run_case, [jobs[i] for i in order], chunksize=16)
     say(f"[C03] {len(traces)} cases executed {v.timer.s()}s")
+    dorder = list(range(len(devcases)))
+    r.shuffle(dorder)
+    traces += pmap(run_dev, [(4000000 + i, devcases[i]) for i in dorder], chunksize=16)
+    say(f"[C03] {len(devcases)} device cases executed {v.timer.s()}s")
     base = 1000000
     for m, fn in (("cb21", replay_cb21), ("cb1", replay_cb1), ("files", replay_files)):
         hj = [(base + i, b, 0 if quick else i) for i, b in enumerate(behs[m])]
@@ -938,10 +1032,10 @@ def run(tier):
     v.count(len(traces))
     for t in traces:
         if any(e.get("got", {}).get("k") == "val" for e in t["ev"]):
-            v.nontrivial(sha([[{k: x for k, x in e.items() if k in ("a", "c", "keys", "used", "isk", "udLen", "cons", "len", "img", "build", "f", "k", "enc", "rot", "files", "path")}
+            v.nontrivial(sha([[{k: x for k, x in e.items() if k in ("a", "c", "fam", "rev", "keys", "used", "isk", "udLen", "cons", "len", "img", "build", "f", "k", "enc", "rot", "files", "path")}
                                 for e in t["ev"]]]))
     by_id = {t["id"]: t for t in traces}
-    for i in (3, len(jobs) // 2, 1000000, 2000003, 3000005):
+    for i in (3, len(jobs) // 2, 1000000, 2000003, 3000005, 4000000 + len(devcases) // 2):
         if i in by_id:
             v.sample(slim(by_id[i]))
 
@@ -949,7 +1043,8 @@ def run(tier):
     c0, t0 = next((c, t) for c, t in cases if c["rot"] == "cert_block_21" and len(c["keys"]) == 3 and c["path"] == "rkht")
     lean = [lean_trace(t) for t in traces]
     chunks = [lean[k:k + 5000] for k in range(0, len(lean), 5000)]
-    chunks[0] = canary_traces(c0, t0) + chunks[0]
+    dev_canaries, dev_expect, dev_pair = canary_dev(devcases)
+    chunks[0] = canary_traces(c0, t0) + dev_canaries + chunks[0]
     rej, tv_states, tv_errs = {}, [0], []
     sem = threading.Semaphore(3)
 
@@ -970,39 +1065,47 @@ def run(tier):
     if tv_errs:
         raise tv_errs[0]
     can = {k: x for k, x in rej.items() if str(k).startswith("canary")}
-    if set(can) != {"canary-flip", "canary-order", "canary-refused"} or can["canary-flip"][3] != "value" or can["canary-order"][3] != "term":
+    if (set(can) != {"canary-flip", "canary-order", "canary-refused"} | set(dev_expect) or can["canary-flip"][3] != "value" or can["canary-order"][3] != "term"
+            or any(can[k][3] != w for k, w in dev_expect.items())):
         raise Machinery(f"canary failed: {can}")
-    v.extra["canary"] = "good observation accepted; one flipped bit of the value, the value of another key order, a refusal: rejected"
+    v.extra["canary"] = ("good observation accepted; one flipped bit of the value, the value of another key order, a refusal: rejected; device entry point: "
+                         + ("the value of ANOTHER revision's RoT type and a case typed by another revision: rejected" if dev_pair else "one flipped bit: rejected"))
     v.traces(len(traces))
     v.extra["tv_states"] = tv_states[0]
     for tid, (matched, length, evname, why) in rej.items():
         if str(tid).startswith("canary"):
             continue
         t = by_id[tid]
-        if why in ("legal", "term", "args", "no-such-action", "end", "start") and not any("crash" in e for e in t["ev"]):
+        if why in ("legal", "term", "device", "args", "no-such-action", "end", "start") and not any("crash" in e for e in t["ev"]):
             raise Machinery(f"trace {tid}: event #{matched + 1} ({evname}) is outside the spec's domain ({why}) - the harness is wrong: "
                             + json.dumps(slim(t)["ev"][min(matched, len(t['ev']) - 1)])[:600])
         e = t["ev"][min(matched, len(t["ev"]) - 1)]
         if "crash" in e:
             why = "raised:" + slug(e["crash"])
-        elif evname in ("Compute", "ReadByPath") and why == "returned":
+        elif evname in ("Compute", "ComputeFor", "ReadByPath") and why == "returned":
             why = ("refused" if e["got"]["k"] == "err" else "raised") + ":" + slug(e["got"]["msg"])
         key = finding_key(t, matched, evname, why)
         what = f"event #{matched + 1} ({evname}) is not a step of the R-spec: clause '{why}'"
-        if evname in ("Compute", "ReadByPath"):
+        if evname == "ComputeFor":
+            what += f"; {e['fam']} revision {e['rev']} has RoT type {e['c']['rot']}"
+        if evname in ("Compute", "ComputeFor", "ReadByPath"):
             what += f"; returned {bytes(e['got']['v']).hex()[:24] or e['got']['msg']}.. expected {bytes(e['want']).hex()[:24]}.."
-        v.violation(key, what, {"kind": "case" if evname == "Compute" else "history", "trace": slim(t), "failed_event": matched + 1, "why": why})
+        v.violation(key, what, {"kind": "case" if evname == "Compute" else "dev" if evname == "ComputeFor" else "history", "trace": slim(t), "failed_event": matched + 1, "why": why})
 
     v.cov["rule"] = (
         f"{len(jobs)} Compute cases = TLC-enumerated structure sweep (all key-set shapes incl. mixed RSA sizes and keys with leading zero bytes x "
         f"{'all' if not quick else 'four'} orders x used index x every tool path) + encoding sweep (every encoding each path takes, uniform and mixed) + "
-        f"{len(extra)} sampled / family sweep (every family of the database through Rot, CMPA, DAT); histories: {len(behs['cb21'])} cert-block v2.1, {len(behs['cb1'])} v1, {len(behs['files'])} key-file rewrite; "
+        f"{len(extra)} sampled / family sweep (every family of the database through Rot, CMPA, DAT); {len(devcases)} ComputeFor cases = device sweep (every family x "
+        f"every silicon revision of the device table and the name 'latest' - {sum(len(d['revs']) + 1 for d in devs)} pairs, "
+        f"{sum(1 for d in devs if len(set(d['rots'])) > 1)} family with revisions of different RoT types - x Rot value / Rot table / nxpcrypto -r / CMPA / debug credential); histories: {len(behs['cb21'])} cert-block v2.1, {len(behs['cb1'])} v1, {len(behs['files'])} key-file rewrite; "
         "a trace is non-trivial if the real code returned a value in it (distinct by the abstract arguments)")
     v.cov["exhaustive"] = False
     v.cov["key_pool"] = f"{nkeys} keys in keys/rot"
     v.cov["checker_cmd"] = "TLC RotGen (lemmas + emission) ; TLC RotMC ; TLC RotTrace (decides every observation)"
     v.cov["trusted_base"] = ["hashlib SHA-2", "`cryptography`: key / certificate loading and ECDSA verification, called directly (never through spsdk.crypto)", "own DER length reader and v1 block walker (struct)", "TLC + CommunityModules (Json, IOUtils)"]
     v.assumptions += [
+        "the RoT type of a (family, revision) is a fact of the silicon: frozen table anchors/C03/rot_types_rev.json (revisions added later are classified by the "
+        "database); which revision 'latest' names is the database's convention; the debug-credential path is not asserted for revisions of type srk_table_ahab_v2",
         "RSA moduli have their full length and e = 65537 (3 bytes): the pool holds no artificial short moduli",
         "SRK tables (HAB, AHAB) carry a documented CA flag per record; it is taken from the supplied certificate and is part of the expected value - "
         "AHAB tables with mixed flags and HAB input other than certificates are outside the asserted domain",
@@ -1017,6 +1120,7 @@ def run(tier):
 
 def replay(path):
     import_spsdk()
+    devices()
     os.makedirs(os.path.join(scratch(), "c03-work"), exist_ok=True)
     w = json.load(open(path))["witness"]
     t = w["trace"]
@@ -1034,6 +1138,18 @@ def replay(path):
         kind = fam_kind(c["path"])
         pick = fams[(c["rot"], kind)].index(t["fam"]) if t.get("fam") in fams[(c["rot"], kind)] else 0
         new = run_case((0, c, j[0]["hist"][0]["term"], pick))
+    elif w["kind"] == "dev":  # the term comes from the generator's device sweep for exactly this (family, revision, case)
+        e0 = t["ev"][0]
+        new = None
+        for gmenu in ("small", "full"):
+            g = gen("dev", gmenu, 1, workers=1)
+            j = [x["hist"][0] for x in g.json_prints() if x["mode"] == "dev" and x["hist"][0]["fam"] == e0["fam"] and x["hist"][0]["rev"] == e0["rev"]
+                 and x["hist"][0]["c"] == e0["c"]]
+            if j:
+                new = run_dev((t["id"], j[0]))
+                break
+        if new is None:
+            raise Machinery("replay: the generator no longer produces the device case of the witness")
     else:
         raise_if = [e["a"] for e in t["ev"]]
         mode = "cb21" if "Build21" in raise_if else "cb1" if "Build1" in raise_if else "files"
